@@ -218,7 +218,7 @@ def run_corr(corr_bin, family, args, workdir, tag, timeout=1200, stdin_script=No
             st = json.load(open(stats))
         except Exception:
             st = {}
-    return dict(rc=rc, err=err[-4000:] if err else "", trace=text, trace_path=trace, stats=st, wall=time.time() - t0)
+    return dict(rc=rc, err=(err if len(err) <= 4000 else err[:1500] + "\n...\n" + err[-2500:]) if err else "", trace=text, trace_path=trace, stats=st, wall=time.time() - t0)
 
 
 def run_oracle(family, trace_text, timeout=600):
@@ -435,7 +435,8 @@ def step_corr(cx, c):
         comp["runs"].append(dict(label=label, cases=len(cases), lines=int(summ.get("lines", 0) or 0), mismatches=len(mism),
                                  wall_s=round(r["wall"], 2), corr_rc=r["rc"]))
         if r["rc"] != 0 and not mism:
-            mism = [dict(case="?", line=0, op="<harness>", expected="exit 0", observed=f"exit {r['rc']}: {r['err'][-500:]}")]
+            pl = next((ln for ln in (r["err"] or "").split("\n") if ln.startswith("panic:") or ln.startswith("fatal error:")), "")
+            mism = [dict(case="?", line=0, op="<harness>", expected="exit 0", observed=f"exit {r['rc']}: {pl} ... {r['err'][-400:]}")]
         if rc not in (0, 1) and not mism:
             mism = [dict(case="?", line=0, op="<oracle>", expected="exit 0/1", observed=f"exit {rc}: {o[-300:]}")]
         if len(cases) == 0 and not mism and not c.get("allow_empty"):
